@@ -193,6 +193,7 @@ func (s *Server) Run(addr string, opt ...Option) error {
 		if err != nil {
 			return fmt.Errorf("%s: unable to create in-memory conn: %w", op, err)
 		}
+		conn.disablePanicRecovery = s.disablePanicRecovery
 		localConnID := connID
 		s.connWg.Add(1)
 		go func() {
